@@ -148,7 +148,7 @@ func c08Run(c *h.Ctx) {
 	po := PlayOpts{
 		Hands:    8 + r.Intn(10),
 		Churn:    Churn{BetweenP: 0.6, MidP: 0.15, Rebuy: true, BuyIn: true, Leave: true, AddOn: true, MidTopup: true, MidJoin: true, MidLeaveOther: true, RandomSeat: true, ResumePaused: true, SitOut: true, Batch: true, TableLevelGuard: true},
-		Gen:      h.GenOpts{MinSeats: 2, ShortStacks: true},
+		Gen:      h.GenOpts{MinSeats: 2, ShortStacks: true, VaryMinCount: true},
 		Policies: []string{"maniac", "maniac", "callstation", "random"},
 		Decks:    []string{"rank", "seeded"},
 		MaxWait:  42 * time.Second,
